@@ -296,3 +296,89 @@ Example C10_ex_alt_transcripts :
   cds_reload [W_t1; W_t2] = Ok [W_t2; W_t1] /\ cds_reload [W_t2; W_t1] = Ok [W_t2; W_t1] /\
   lstart W_t1 = lstart W_t2 /\ lend W_t1 = lend W_t2.
 Proof. exact alt_transcripts_witness. Qed.
+
+(* ---------- optional qualifiers: written iff the attribute is not None ---------- *)
+(* AntismashFeature.to_biopython writes score / evalue under `is not None` and from_biopython reads them when the key is
+   present; Feature does the same for codon_start, CandidateCluster for SMILES / polymer.  For ANY text form that reads
+   back as the value, EVERY attribute value - None, and every value however falsy: 0, 0.0, -0.0, "" - comes back from
+   the qualifier dictionary.  (Python's float formatting / parsing is the hypothesis here: third party, exercised by the
+   correspondence run on the values the formats keep.) *)
+Theorem C10_optional_qualifier_codec : forall (A : Type) (fmt : A -> str) (parse : str -> res A),
+  (forall x, parse (fmt x) = Ok x) -> forall v : option A, optq_read parse (optq_write fmt v) = Ok v.
+Proof. exact optq_roundtrip. Qed.
+Print Assumptions C10_optional_qualifier_codec.
+
+(* integer-valued instance with the proved text codec str(int) / int(str): no hypothesis left, every integer incl. 0 *)
+Theorem C10_optional_int_qualifier : forall v : option Z, optq_read parse_int (optq_write str_of_int v) = Ok v.
+Proof. exact optq_int_roundtrip. Qed.
+Print Assumptions C10_optional_int_qualifier.
+
+(* codon_start: the attribute _original_codon_start = int(text) - 1 is written as str(attribute + 1) iff it is not None;
+   the attribute 0 (codon_start=1) is falsy and comes back as 0, None as None *)
+Theorem C10_codon_start_qualifier : forall v : option Z, optq_read codon_parse (optq_write codon_fmt v) = Ok v.
+Proof. exact optq_codon_roundtrip. Qed.
+Print Assumptions C10_codon_start_qualifier.
+
+(* the run-time verdict on what an implementation wrote (fn 116 / 120) is sound: accepted => reading gives the value *)
+Theorem C10_optional_qualifier_spec_sound : forall (A : Type) (eqb : A -> A -> bool) (parse : str -> res A),
+  (forall x y, eqb x y = true -> x = y) ->
+  forall v q, optq_spec_ok eqb parse v q = true -> optq_read parse q = Ok v.
+Proof. exact optq_spec_sound. Qed.
+Print Assumptions C10_optional_qualifier_spec_sound.
+
+(* why the test must be `is not None`: with a truthiness test (`if self.evalue:`) the value 0 is written like None and
+   comes back as None, while the modelled writer returns it *)
+Theorem C10_optional_qualifier_truthy_test_refuted :
+  exists v : option Z, optq_read parse_int (optq_write_truthy str_of_int v) <> Ok v /\
+                       optq_read parse_int (optq_write str_of_int v) = Ok v /\
+                       optq_write_truthy str_of_int v = optq_write_truthy str_of_int None.
+Proof. exact optq_truthy_loses_zero. Qed.
+Print Assumptions C10_optional_qualifier_truthy_test_refuted.
+
+(* string attributes of AntismashFeature (label, database, detection, domain_id, locus_tag) ARE written under a
+   truthiness test and read with `or None`: every value but the empty string comes back *)
+Theorem C10_truthy_string_qualifier_partial : forall v : option str, v <> Some [] ->
+  truthy_read (truthy_write v) = Ok v.
+Proof. exact truthy_roundtrip. Qed.
+Print Assumptions C10_truthy_string_qualifier_partial.
+
+(* ... and the empty string does not (finding C10-F66 empty_string_attribute_read_as_none): it is written like None *)
+Theorem C10_truthy_string_qualifier_empty_refuted :
+  exists v : option str, truthy_read (truthy_write v) <> Ok v /\ truthy_read (truthy_write v) = Ok None /\
+                         truthy_write v = truthy_write None.
+Proof. exact truthy_empty_lost. Qed.
+Print Assumptions C10_truthy_string_qualifier_empty_refuted.
+
+Theorem C10_truthy_string_spec_sound : forall v q, v <> Some [] -> truthy_spec_ok v q = true -> truthy_read q = Ok v.
+Proof. exact truthy_spec_sound. Qed.
+Print Assumptions C10_truthy_string_spec_sound.
+
+(* non-vacuity: the falsy values themselves - integer 0 is written as "0" and read as 0, codon_start attribute 0 as "1",
+   the e-value text "0.00E+00" as itself, None as no qualifier *)
+Example C10_ex_optional_qualifier_zero :
+  optq_read parse_int (optq_write str_of_int (Some 0)) = Ok (Some 0) /\
+  optq_write str_of_int (Some 0) = Some [[48]] /\
+  optq_read codon_parse (optq_write codon_fmt (Some 0)) = Ok (Some 0) /\
+  optq_write codon_fmt (Some 0) = Some [[49]] /\
+  optq_read text_ok (optq_write id_str (Some [48; 46; 48; 48; 69; 43; 48; 48])) = Ok (Some [48; 46; 48; 48; 69; 43; 48; 48]) /\
+  optq_read parse_int (optq_write str_of_int None) = Ok None.
+Proof. exact optq_witnesses. Qed.
+
+(* ---------- sorted(all_features) on the mixed list of collections and plain features ---------- *)
+(* finding C10-F70 mixed_order_not_transitive: on a circular record of 900 bases the protocluster
+   join{[775:900](+), [0:19](+)} is less than the sig_peptide join{[860:900](+), [0:40](+)} (containment / key), the
+   sig_peptide is less than the source feature [0:900](+) (key -40 < 0), but the protocluster is NOT less than the source
+   (the mirrored containment short cut of CDSCollection.__lt__ answers False because the source contains it) and the
+   source is not less than the protocluster either: `<` is not transitive on the three, so what sorted() returns
+   depends on the order in which the features arrive (and, from 64 features on, on Timsort's runs) *)
+Theorem C10_mixed_order_not_transitive_refuted :
+  exists a b c, mixed_lt a b = true /\ mixed_lt b c = true /\ mixed_lt a c = false /\ mixed_lt c a = false /\
+                has_bad_triple [c; b; a] = true.
+Proof. exact mixed_lt_not_transitive. Qed.
+Print Assumptions C10_mixed_order_not_transitive_refuted.
+
+(* the class test evaluated on a record's features (fn 22) only answers true when the record holds such a triple *)
+Theorem C10_mixed_class_test_sound : forall l, has_bad_triple l = true ->
+  exists a b c, In a l /\ In b l /\ In c l /\ mixed_lt a b = true /\ mixed_lt b c = true /\ mixed_lt a c = false.
+Proof. exact has_bad_triple_sound. Qed.
+Print Assumptions C10_mixed_class_test_sound.
